@@ -1,5 +1,10 @@
 """C09 -- parallel == serial, bit for bit (Bernstein conditions + worker/serial expression identity).
 
+Verdicts: a VIOLATION is reported for a definite conflict or difference only (every task writes the same cells with task-dependent values; a task
+reads what another one writes; an in-place operation on shared data outside the own slice; a stale process global; a content tree that differs
+from the serial one; block edges that reach the number of indices only in exact arithmetic).  A partition of the index space the rules do not
+understand (a task index mapped through something else than the identity or recognised consecutive blocks) is reported as undecided (exit 2).
+
 All six rules read one exact symbolic execution of `srs.srs` and `fdepsd.fdepsd` (verifier/c09_sim.py): every path through the parent up
 to the statement that joins the parallel and the serial arm, with the pool executed as fork + initializer + one symbolic task.  The rules
 speak about *objects and values* (which array a store lands on - through helper calls, views and `out=` -, which term is stored, which
@@ -134,6 +139,22 @@ def _task_axes(sim, L):
     return sorted(out, key=repr)
 
 
+def multi_index(sim, L):
+    """does the task address written shared arrays through something else than its plain index combined with an inner loop of its own (a block of
+    indices the analysis did not recognise as one)?  The content terms of such arrays do not describe what the tasks do together."""
+    if L.fid is None:
+        return False
+    for e in task_events(sim, L):
+        if e.kind != "store" or not shared(sim, L, e.oid):
+            continue
+        pos = lv_positions(e.sel, L.lv)
+        if len(pos) == 1 and not any(contains(x, L.lv) for i, x in enumerate(e.sel) if i != pos[0]):
+            continue
+        if any(is_tag(x, "blk") or (is_tag(x, "lv") and x != L.lv) for it in e.sel for x in subterms(it)):
+            return True
+    return False
+
+
 def launches(an):
     for q, (rel, fn, K, live, leaves) in an.entries.items():
         for lf in leaves:
@@ -154,9 +175,12 @@ def r1_disjoint_writes(ctx):
         axes = {}
         if L.block is not None:
             B = L.block
-            ag.add(f"{w}: task number k owns the indices range(F(k), F(k+1)) of one edge sequence F (consecutive ranges: pairwise disjoint and "
-                   "without gaps when F does not decrease) and its loop runs over exactly that range", B.used > 0, L.node,
-                   None if B.used else "no loop over the task's own range was found in the task")
+            if B.used:
+                ag.add(f"{w}: task number k owns the indices range(F(k), F(k+1)) of one edge sequence F (consecutive ranges: pairwise disjoint and "
+                       "without gaps when F does not decrease) and its loop runs over exactly that range", True, L.node)
+            else:
+                undecided.add((f"{w}: the task element holds two consecutive values F(k), F(k+1) of one sequence but the task does not loop over "
+                               "range(F(k), F(k+1)): what the task owns is not decided", L.node))
             if B.mono:
                 ag.add(f"{w}: the block edges F(k) do not decrease with k (sign / monotonicity calculus)", True, L.node)
             else:
@@ -294,8 +318,13 @@ def r3_no_other_channel(ctx):
                    None if ok else show(rest)[:200])
         else:
             ok = is_tag(el, "tuple") and len(el) == 3 and el[1] == L.lv and not contains(sim.snap(el[2], record=False), L.lv)
-            ag.add(f"{q}: each task is (index, arguments) with the index running over the task range and the arguments the same for every task "
-                   f"[{w}]", ok, L.node, None if ok else show(sim.snap(el, record=False))[:200])
+            if ok:
+                ag.add(f"{q}: each task is (index, arguments) with the index running over the task range and the arguments the same for every task "
+                       f"[{w}]", True, L.node)
+            else:
+                # not a necessary condition (a task may be handed per-task values or a range of indices): what the tasks write where is judged by
+                # C09-R1, what they compute by C09-R5
+                ctx.note(f"{w}: tasks are not of the form (index, common arguments): {show(sim.snap(el, record=False))[:120]}")
         for oid, p, shp in _task_axes(sim, L):
             lab = label(sim, oid)
             if is_tag(shp, "tuple") and p < len(shp) - 1 and L.count is not None:
@@ -320,11 +349,10 @@ def r3_no_other_channel(ctx):
         if T != NONE and not is_const(T):
             where = []
             # (the edges of a block launch may depend on the worker count: what matters is that the blocks tile the index range, C09-R1/R5)
-            targ = sim.snap(L.elem, record=False) if L.block is None else _without(sim.snap(L.elem, record=False), L.block.paths)
-            if contains(targ, T):
-                where.append("task arguments")
-            if contains(sim.snap(pool.initargs, record=False), T):
-                where.append("initargs")
+            # (that the worker count is handed to the tasks or the initializer is not by itself a dependence of the result on it: only what is
+            # stored or returned counts, and only when the tasks are understood, see multi_index)
+            if multi_index(sim, L):
+                continue
             for e in sim.events:
                 if e.value is not None and contains(e.value, T):
                     where.append(f"value stored by `{src(e.node)}`")
@@ -538,6 +566,10 @@ def r5_serial_equals_worker(ctx):
             raise Unsup(f"{q}: no single test separates the parallel paths from the serial paths")
         for p in P:
             ws = "/".join(sorted({wname(L) for L in p.sim.launches})) or "in-process tasks"
+            if any(multi_index(p.sim, L) for L in p.sim.launches):
+                undecided.add((f"{q}: the tasks {ws} own several indices each in a way the analysis does not recognise as consecutive blocks of one "
+                               "edge sequence: what they compute together is not compared with the serial loop", fn))
+                continue
             partners = [s for s in S if compatible(_drop(p.assign, mode), _drop(s.assign, mode))]
             if not partners:
                 ctx.error(f"{q}: no serial path runs under the conditions of the parallel path with {ws}", fn,
@@ -642,6 +674,8 @@ def r5_serial_equals_worker(ctx):
     ctx.assume("user-supplied peak/rolloff callables and the coefficient routines picked from the srs tables are pure")
     ctx.assume("the value copied into a float64 shared buffer is the value the serial path hands to lfilter (inputs are real; float64 conversion is exact for them)")
     ctx.assume("x += y, np.add(x, y, out=x) and x = x + y produce the same float64 array content")
+    ctx.assume("A[s] = [e_0, ..., e_n-1] (a list of scalars as long as A[s]) stores what the loop A[s][k] = e_k stores; x.max() and numpy.max(x) are one "
+               "computation; arguments equal to the documented default of a library routine may be left out")
 
 
 RULES = [
@@ -655,7 +689,12 @@ RULES = [
 LEVEL = "proof"
 TRUSTED = ["CPython ast", "verifier/c09_sim.py exact symbolic execution (heap of array objects, views, helper calls followed, pool = fork + initializer + one symbolic task)",
            "purity of library namespaces numpy/scipy/itertools/builtins without out= (scipy.signal.lfilter, numpy reductions, cyclecount.findap/rainflow)",
-           "IEEE determinism of the listed library calls", "multiprocessing delivers each task exactly once"]
+           "IEEE determinism of the listed library calls", "multiprocessing delivers each task exactly once",
+           "library facts used to identify spellings (verifier/c09_sim.py SIGS / ALIASES / ND_METHODS): documented parameter order and defaults of "
+           "scipy.signal.lfilter and the numpy reductions, x.max() == numpy.max(x) for arrays, float / 'f8' / numpy.float64 name one dtype, "
+           "numpy.linspace returns its end points exactly",
+           "verifier/c09_blocks.py index algebra for tasks that own a block of indices: integer + - * // are exact, a true division is rounded, "
+           "int()/floor/ceil of a rounded value is never assumed to hit the intended integer"]
 EXPLANATION = ("Bernstein's conditions proved from the source for every schedule and worker count: each task touches written shared arrays only at "
                "its own task index on one fixed axis, never mutates read-only inputs or views of them (through helpers, views and out= alike), has no "
                "other output channel, results of the pool iterator reach nothing; the pool lifecycle orders parent writes before and reads after, and "
